@@ -1656,6 +1656,11 @@ func (interpreter *Interpreter) declareNonEnumCompositeValue(
 				compositeType,
 				constructorGenerator,
 			)
+			// The contract value might not exist (yet),
+			// e.g. if the contract was added in the current transaction
+			if contractValue == nil {
+				return nil
+			}
 			contractValue.SetNestedVariables(nestedVariables)
 			return contractValue
 		})
